@@ -133,10 +133,10 @@ static const double RGEO[][6] = {
 
 /* conical: centre x angle (degrees) */
 static const double CCEN[][2] = { { 4, 2 }, { 3.5, 1.5 }, { -1, 5 } };
-static const double CANG[] = { 0, 90, 360, -45, 180.5 };
+static const double CANG[] = { 0, 90, 360, -45, -270, -630.5, 180.5, 725 };       /* incl. angles below -180 and beyond one turn */
 #define N_CCEN 3
-#define N_CANG_QUICK 4
-#define N_CANG_ALL 5
+#define N_CANG_QUICK 6
+#define N_CANG_ALL 8
 
 /* transforms */
 enum { T_NONE, T_SCALE2, T_TRANS_HALF, T_ROT90, T_PROJ, T_W2, T_SHEAR, T_PROJ2,
@@ -608,11 +608,11 @@ int main(int argc, char **argv)
                 "transforms none/scale 2, 4 repeats, the quarter-grid lists plus 4 lists with stops 1/16..1/256 apart"
     vf_bounds = th ? "stop lists: all 1..4-stop lists with non-decreasing positions from {0,1/4,1/2,1/2,3/4,1} x 4 colours per stop; linear 12 ordered "
                      "point pairs + 4 extra (vertical, half-pixel span, long span, off-grid); radial 17 circle pairs (a<0, a>0, a=0, equal radii, zero "
-                     "radii, identical circles); conical 3 centres x 5 angles; 4 repeat modes; 8 transforms (none, scale 2, translate 1/2, rotate 90, "
+                     "radii, identical circles); conical 3 centres x 8 angles (incl. -270, -630.5, 725); 4 repeat modes; 8 transforms (none, scale 2, translate 1/2, rotate 90, "
                      "2 projective, w=2, shear); 2 origins; fresh image and image first used with another repeat mode; 2 pipelines.  Safety: 14 unsorted/out-of-range/extreme stop lists x degenerate geometries "
                      "x 9 transforms (5 singular/overflowing) x 4 repeats x 2 origins; n_stops <= 0." FAR_TXT " (grid lists with <= 3 stops)"
                    : "stop lists: all 1..3-stop lists with non-decreasing positions from {0,1/4,1/2,1/2,3/4,1} x 4 colours per stop; linear 12 ordered "
-                     "point pairs; radial 12 circle pairs; conical 3 centres x 4 angles; 4 repeat modes; 5 transforms (none, scale 2, rotate 90, "
+                     "point pairs; radial 12 circle pairs; conical 3 centres x 6 angles (0, 90, 360, -45, -270, -630.5); 4 repeat modes; 5 transforms (none, scale 2, rotate 90, "
                      "projective, affine with w=2); origin (0,0); fresh image and image first used with another repeat mode; 2 pipelines.  Safety spaces as in the thorough tier." FAR_TXT " (grid lists with <= 2 stops)";
     return vf_finish();
 }
